@@ -22,6 +22,7 @@ type helperShape struct {
 	NoTypeAssert bool
 	OnlyConsts   []string // when set: no string constant outside this list (numbers/bools/nil ignored)
 	MustCommaOk  bool     // the answer rests on a comma-ok map lookup (presence, not value)
+	MustCalls    []string // callees that must be consulted
 	Why          string   // what dependent rules assume
 }
 
@@ -38,9 +39,11 @@ func ruleHelperShape(c *Ctx, r *Report, clause string, hs helperShape) {
 	viol := ""
 	consts := map[string]bool{}
 	fields := map[string]bool{}
+	called := map[string]bool{}
 	allInstrs(fi.SSA, true, func(_ *ssa.Function, _ *ssa.BasicBlock, _ int, ins ssa.Instruction) {
 		switch x := ins.(type) {
 		case ssa.CallInstruction:
+			called[calleeName(x)] = true
 			if nm := calleeName(x); !allowed[nm] && nm != "builtin.len" && !strings.HasPrefix(nm, "infrastructure/logger.") && !exactSearchCall(nm) {
 				viol = fmt.Sprintf("%s: %s now consults %s; the rules that rely on it assume: %s", w.pos(x.Pos()), hs.Fn, nm, hs.Why)
 			}
@@ -99,6 +102,11 @@ func ruleHelperShape(c *Ctx, r *Report, clause string, hs helperShape) {
 	for _, f := range hs.MustFields {
 		if !fields[f] {
 			missing = append(missing, "field "+f)
+		}
+	}
+	for _, cl := range hs.MustCalls {
+		if !called[cl] {
+			missing = append(missing, "call "+cl)
 		}
 	}
 	sort.Strings(missing)
